@@ -123,6 +123,7 @@ theorem mu_decreases (F : Facts) (s s' : S) (a : Act) (hint : a.internal = true)
   | pauseCall => cases hint
   | resumeCall => cases hint
   | stopCall => cases hint
+  | subscribe => cases hint
   | pauseSend k =>
     simp only [step] at hs
     split at hs
